@@ -1127,6 +1127,8 @@ func (sb *seqbag) TrimNames(namemap map[string]string, size int) error {
 		seq.name = newname
 		sb.seqmap[seq.name] = seq
 	}
+	// a new name may be the old name of a later sequence
+	sb.reindex()
 
 	return nil
 }
